@@ -52,7 +52,7 @@ class C11Commands(Oracle):
         self.tick_seen = -2
 
     def on_probe(self, ev):
-        tick, phase, name, inst, it, args = ev
+        tick, phase, name, inst, it, args = ev[:6]
         d = self.inst.setdefault(inst, {"name": name, "init": 0, "exec": 0, "fin": 0, "first_exec": None, "fin_tick": None,
                                         "init_tick": None})
         if tick != self.tick_seen:
@@ -396,9 +396,68 @@ class C02Order(Oracle):
             if n.token:
                 self.token_nodes.setdefault(n.token, []).append(n)
 
+    def _repeated_bodies(self, w):
+        """A body that runs again (Alarm re-armed, macro called again) runs its lines in order, each once per invocation:
+        for a body of plain effect lines whose tokens occur nowhere else, the effect stream restricted to those tokens is
+        body, body, ..., ending with a (possibly empty) prefix of the body."""
+        if any(e[1] == "method_error" for e in w.events) or w.ctx_flags & {"cf", "edit", "err"}:
+            return
+        if any(op[0] == "user" and op[1] in ("Pause", "Hold", "Stop", "Restart") for op in self.plan["ops"]):
+            return
+        calls_from_interrupts = any(c.kind == "Call macro" and any(a.kind in ("Watch", "Alarm") for a in c.ancestors())
+                                    for c in self.tree.walk())
+        for sc in self.tree.walk():
+            if sc.kind not in ("Alarm", "Macro") or (sc.kind == "Macro" and calls_from_interrupts):
+                continue
+            if any(a.kind in ("Alarm", "Macro", "Watch", "Block") for a in sc.ancestors()):
+                continue
+            kids = [c for c in sc.children if not c.is_ws]
+            if len(kids) < 2 or any(c.children or c.kind in ("End block", "End blocks", "Stop", "Restart", "Pause", "Hold",
+                                                            "Call macro", "Wait") and c.token is None and c.kind != "Wait"
+                                     for c in kids):
+                continue
+            if any(c.threshold is not None for c in kids):
+                continue
+            seq = [c.token for c in kids if c.token]
+            if len(seq) < 2 or len(set(seq)) != len(seq) or any(len(self.token_nodes[t]) != 1 for t in seq):
+                continue
+            if sc.kind == "Macro" and sum(1 for n in self.tree.walk() if n.kind == "Macro" and n.arg == sc.arg) != 1:
+                continue
+            # a command of the body may legitimately be cancelled before its first execution by a request of the same
+            # name or of an overlapping command elsewhere in the method (or by a second one in the body itself)
+            groups = [{"LongA", "LongB"}, {"LongB", "LongC"}]
+            names = [c.kind for c in kids if c.kind in model.UOD]
+            rivals = set(names)
+            for g in groups:
+                if g & set(names):
+                    rivals |= g
+            if len(names) != len(set(names)) or any(len(g & set(names)) > 1 for g in groups) or \
+                    any(n.kind in rivals and n.parent is not sc for n in self.tree.walk()):
+                continue
+            can_abandon = any(n.kind in ("End block", "End blocks") and any(a.kind in ("Watch", "Alarm") for a in n.ancestors())
+                              for n in self.tree.walk())
+            got = [(e[1], e[2]) for e in w.effects if (e[1], e[2]) in set(seq)]
+            pos = -1
+            for i, tok in enumerate(got):
+                nxt = (pos + 1) % len(seq)
+                if tok == seq[nxt]:
+                    pos = nxt
+                    continue
+                if can_abandon and tok == seq[0]:
+                    pos = 0         # the invocation under way was abandoned (its block was ended by an interrupt)
+                    continue
+                if True:
+                    self.v("C02", "C02.repeated_body_out_of_sequence", sc.kind,
+                           f"body of {sc.text.strip()!r} is {seq}; its effects came as {got[max(0, i - 4):i + 2]} (position {i}): "
+                           f"{tok} follows {seq[pos] if pos >= 0 else None}, expected {seq[nxt]}")
+                    return
+            if got:
+                self.res.probe("repeated_body_sequence_checked")
+
     def at_end(self, w):
         if not self.enabled:
             return
+        self._repeated_bodies(w)
         fx = [(e[0], (e[1], e[2])) for e in w.effects]
         first: dict[tuple, int] = {}
         count: dict[tuple, int] = {}
@@ -1003,6 +1062,11 @@ class C01Edits(Oracle):
             ctx = "@edit" if self.accepted_live_edits else ""
             if accepted and self.pre_run_active:
                 self.accepted_live_edits += 1
+            touched_started = getattr(w, "macro_edit", ("?", "", []))[2]
+            if accepted and self.pre_run_active and touched_started and not ctx:
+                self.v("C01", "C01.started_line_edit_accepted", kind,
+                       f"the edit {kind} of macro {name} changes / removes line(s) {touched_started} that had started in this "
+                       f"run, and it was accepted")
             if expect == "reject" and accepted and self.pre_run_active:
                 self.v("C41", "C41.started_macro_edit_accepted" + ctx, kind,
                        f"macro {name} had already run (body effect seen or a call completed) and the edit {kind} was accepted")
@@ -1017,7 +1081,10 @@ class C01Edits(Oracle):
             self.accepted_live_edits += 1
         if expect == "reject":
             if accepted and self.pre_run_active:
-                self.v("C01", "C01.started_line_edit_accepted", kind, "an edit that changes a started line was accepted")
+                # after a first accepted live edit the engine has lost the method state (known finding
+                # C01.method_state_lost_after_edit): a later edit of a line that had started is a consequence of that
+                ctx = "@edit" if self.accepted_live_edits > 1 else ""
+                self.v("C01", "C01.started_line_edit_accepted" + ctx, kind, "an edit that changes a started line was accepted")
             elif not accepted and self._digest() != self.pre_digest:
                 self.v("C01", "C01.rejected_edit_changed_state", kind, "a rejected edit changed method / state")
             return
